@@ -694,6 +694,55 @@ CORPUS += ['MO|a1+2000+2001 a3+2002+2003:1 t', 'MVR|a1+2000 a2+2001+2002 t', 'MO
 F2_WITNESS = 'MO|s n1 d1 S t'
 
 
+MY_PARAMS = {'gc_rem_pending_finalises', 'gc_sweep_nulls_first', 'gc_set_defers_in_sweep', 'gc_mitems_rule', 'gc_life_shape',
+             'main_registers_atexit', 'main_tears_down_after_return', 'exception_error_exits', 'genx_life'}
+
+
+def check_glue(ctx):
+    """coq/Properties_C06_glue.v: the abstract registry is a sound abstraction of C17's concrete one.  These are
+    statements about C17's MODEL, which is parameterised by what C17's translator (tools/genx_gcreg.py) reads off
+    src/GC.c.  When that translator cannot read the tree, C17's model does not exist for it (C17's own check reports
+    that); the life-cycle theorems and the correspondence of C06 do not depend on it, so this is a note, not an alarm.
+    Any other failure of the glue file is a broken obligation of C06."""
+    pf = 'Properties_C06_glue.v'
+    src = open(os.path.join(vlib.COQ, pf)).read()
+    thms = re.findall(r'^\s*Theorem\s+([A-Za-z0-9_\']+)', src, re.M)
+    foreign = [g.split()[1] for g in getattr(ctx, 'gen_status', []) if g.startswith('FAIL') and len(g.split()) > 1
+               and g.split()[1] not in MY_PARAMS]
+    import fcntl
+    with open(os.path.join(vlib.COQ, '.lock'), 'w') as lk:
+        fcntl.flock(lk, fcntl.LOCK_EX)
+        deps = vlib.coq_deps(pf)
+        rc, o, e = vlib.sh(['make', '-C', vlib.COQ, '-j%d' % vlib.NCPU] + deps, timeout=3000)
+        fcntl.flock(lk, fcntl.LOCK_UN)
+    if rc == 0:
+        out = os.path.join(ctx.tmp, 'glue_out'); os.makedirs(out, exist_ok=True)
+        import shutil
+        shutil.copy(os.path.join(vlib.COQ, pf), os.path.join(out, pf))
+        rc, o, e = vlib.sh(['coqc', '-Q', vlib.COQ, 'CelloV', '-Q', out, 'CelloVTmp', os.path.join(out, pf)], timeout=3000)
+    if rc == 0:
+        closed = o.count('Closed under the global context')
+        ctx.cov['obligations'] += len(thms)
+        ctx.cov['discharged'] += len(thms) if not getattr(ctx, 'proof_broken', None) else 0
+        ctx.cov['trusted_base'] += ['theorem %s (Properties_C06_glue.v): %s' % (t, 'closed under the global context (no axioms)'
+                                                                                if closed >= len(thms) else 'see coqc output') for t in thms]
+        ctx.cov['checker_cmd'] += ' && coqc -Q coq CelloV coq/%s' % pf
+        if closed < len(thms) and not getattr(ctx, 'proof_broken', None):
+            ctx.proof_broken = 'Properties_C06_glue.v: Print Assumptions does not report every theorem closed: ' + o[-600:]
+        return
+    if foreign:
+        ctx.notes.append('glue to C17 (Properties_C06_glue.v, %d theorems) NOT re-checked on this tree: C17\'s model cannot be '
+                         'regenerated (patterns of other translators that no longer match: %s); C06\'s own theorems and '
+                         'correspondence do not depend on it' % (len(thms), ', '.join(foreign[:6])))
+        ctx.cov['glue_to_C17'] = 'not re-checked: C17 model not regenerable (%s)' % ', '.join(foreign[:6])
+        return
+    ctx.cov['obligations'] += len(thms)
+    if not getattr(ctx, 'proof_broken', None):
+        m = re.search(r'File "([^"]+)", line (\d+)', o + e)
+        ctx.proof_broken = 'Properties_C06_glue.v or its dependencies do not compile (%s): %s' % (
+            (m.group(1) + ':' + m.group(2)) if m else '?', (o + e)[-1200:])
+
+
 def run(ctx):
     quick = ctx.tier == 'quick'
     ctx.cov['rule'] = (
@@ -717,6 +766,7 @@ def run(ctx):
     mine = json.load(open(FINDINGS)) if os.path.exists(FINDINGS) else []
     ctx.findings = [f for f in ctx.findings if f.get('property') != 'C06'] + mine
     ok = ctx.coq()
+    check_glue(ctx)
     drv = ctx.build_driver('Lifecycle')
     if not load_rule(ctx, drv):
         ctx.notes.append('collection threshold rule could not be tabulated: generator simulates the pinned rule')
